@@ -229,3 +229,87 @@ def run_map(run, drv):
             pool.join()
     finally:
         shutil.rmtree(scratch_root, ignore_errors=True)
+
+
+def run_map_ext(run):
+    """extended domain (oracle only): lazy stacks and tensorclasses as map inputs, and map_iter(shuffle=True)"""
+    import torch.multiprocessing as mp
+    from tensordict import LazyStackedTensorDict, TensorDict, tensorclass
+    from c12_fns import affine_fn
+    import c11_trips
+    from c11_canon import canon, first_diff
+    rng = run.rng
+    quick = run.tier == "quick"
+    torch.set_num_threads(1)
+    pool = mp.get_context("fork").Pool(2)
+    opts = dict(lock=False, names=False, device=False)
+
+    def nts_as_nt(c):
+        """a NonTensorStack whose entries are all the same value is the stacked form of one NonTensorData (what chunksize=0 +
+        restacking produces for the non-tensor fields of a tensorclass): same content, representation is C16's subject"""
+        if isinstance(c, list):
+            if len(c) == 3 and c[0] == "NTS":
+                import ast
+                try:
+                    flat = ast.literal_eval(c[1])
+                    while isinstance(flat, list) and flat and all(x == flat[0] for x in flat):
+                        flat = flat[0]
+                    if not isinstance(flat, list):
+                        return ["NT", repr(flat), c[2]]
+                except Exception:  # noqa: BLE001
+                    pass
+            return [nts_as_nt(x) for x in c]
+        return c
+
+    try:
+        for it in range(40 if quick else 300):
+            kind = ["lazy0", "lazy1", "tensorclass", "shuffle"][it % 4]
+            n = rng.randint(1, 6)
+            other = rng.choice([1, 2, 3])
+            if kind == "lazy0":
+                td = LazyStackedTensorDict(*[TensorDict({"x": torch.arange(other * 2).reshape(other, 2) + 100 * i, "n": {"y": torch.full((other,), i)}}, [other]) for i in range(n)], stack_dim=0)
+                dim = rng.choice([0, 1, -2])
+            elif kind == "lazy1":
+                td = LazyStackedTensorDict(*[TensorDict({"x": torch.arange(other * 2).reshape(other, 2) + 100 * i}, [other]) for i in range(n)], stack_dim=1)
+                dim = rng.choice([0, 1, -1])
+            elif kind == "tensorclass":
+                td = c11_trips.tc_cls()(u=torch.arange(n * other * 2.0).reshape(n, other, 2), v=torch.arange(n * other).reshape(n, other), tag="T", batch_size=[n, other])
+                dim = rng.choice([0, 1])
+            else:
+                td = TensorDict({"x": torch.arange(n * other).reshape(n, other), "r": torch.arange(n).reshape(n, 1).expand(n, other).clone()}, [n, other])
+                dim = 0
+            size = td.batch_size[dim]
+            mode = rng.choice(["cs", "nc", "default"])
+            kw = dict(chunksize=rng.randint(0 if kind != "shuffle" else 1, size + 1)) if mode == "cs" else dict(num_chunks=rng.randint(1, size + 1)) if mode == "nc" else {}
+            gen = rng.random() < 0.5
+            case = {"kind": kind, "batch": list(td.batch_size), "dim": dim, "gen": gen, **kw}
+            run.case(("map-ext", it, str(case)))
+            run.count("mapext.kind", kind)
+            try:
+                with time_limit(180):
+                    if kind == "shuffle":
+                        items = list(td.map_iter(affine_fn, dim, shuffle=True, pool=pool, index_with_generator=True, **kw))
+                        rows = []
+                        for c in items:
+                            rows += [(int(r["r"][0]) // 2, r["x"].tolist()) for r in (c.unbind(0) if c.batch_dims == 2 else [c])]
+                        exp = sorted((i, (td["x"][i] * 2 + 1).tolist()) for i in range(n))
+                        diff = None if sorted(rows) == exp else f"rows returned {sorted(rows)} != every row once {exp}"
+                    else:
+                        ret = td.map(affine_fn, dim, pool=pool, index_with_generator=gen, **kw)
+                        want = affine_fn(td)
+                        if kind == "tensorclass":
+                            diff = first_diff(nts_as_nt(canon(want, **opts)), nts_as_nt(canon(ret, **opts))) if type(ret) is type(want) else f"returned a {type(ret).__name__}"
+                        else:
+                            diff = first_diff(canon(want.to_tensordict(), **opts), canon(ret.to_tensordict(), **opts))
+            except TimeoutError as e:
+                raise Infra(f"map timed out: {e}")
+            except Exception as e:  # noqa: BLE001
+                diff = f"raised {type(e).__name__}: {str(e)[:150]}"
+            if diff is None:
+                run.oracle_ok("map_equals_sequential(ext)")
+            else:
+                tag = "raise-" + "".join(ch if ch.isalnum() else "-" for ch in diff[7:45]) if diff.startswith("raised") else "differs"
+                run.oracle_fail("map_equals_sequential(ext)", case, f"map over a {kind} input: {diff}", f"mapext:{kind}:{tag}")
+    finally:
+        pool.terminate()
+        pool.join()
